@@ -660,6 +660,9 @@ static StepOut step(Case& c, const Fn* f, const Mut& mut, Mode mode, long arm_k,
         const ArgSpec& s = f->args[k];
         const TypeOps* ops = s.type >= 0 ? type_table[s.type].ops : 0;
         hx::checked(1);
+        // shapes / boxes over floating point bounds: equality goes through a closure that rounds, so "the same value" is not decidable by it
+        const std::string tname_k = s.type >= 0 ? std::string(type_table[s.type].name) : std::string();
+        const bool inexact_T = tname_k.find("_double") != std::string::npos || tname_k.find("Double_Box") != std::string::npos || tname_k.find("_float") != std::string::npos;
         bool aliases_mutable = false;   // the same handle also passed as a non-const argument: it is allowed to change
         if (s.kind == K_HIN) for (int m2 = 0; m2 < f->nargs; ++m2) if (m2 != k && f->args[m2].kind == K_HIN && !f->args[m2].is_const && A.a[m2].p == A.a[k].p) aliases_mutable = true;
         switch (s.kind) {
@@ -670,8 +673,6 @@ static StepOut step(Case& c, const Fn* f, const Mut& mut, Mode mode, long arm_k,
             viol(c, key, what + ": argument " + s.name + " after the call: C side {" + ops->dump(A.a[k].p).substr(0, 600) + "} twin {" + ops->dump(t.cp[k]).substr(0, 600) + "}");
             ok = false; break;
           }
-          // shapes / boxes over floating point bounds: equality goes through a closure that rounds, so "the same value" is not decidable by it
-          const bool inexact_T = std::string(type_table[s.type].name).find("_double") != std::string::npos || std::string(type_table[s.type].name).find("Double_Box") != std::string::npos || std::string(type_table[s.type].name).find("_float") != std::string::npos;
           if (pre[k] && !aliases_mutable && inexact_T) hx::count("const_check.skipped_inexact_T");
           if (pre[k] && !aliases_mutable && !inexact_T) {
             if (!ops->equal(A.a[k].p, pre[k])) { viol(c, "C20.const_modified." + pat, what + ": const argument " + s.name + " changed value: before {" + dump_before[k].substr(0, 500) + "} after {" + ops->dump(A.a[k].p).substr(0, 500) + "}"); ok = false; break; }
